@@ -21,7 +21,8 @@ CHECKS.update({
         technique='runtime reference-model monitor: adversarial worst-case search over the declared set at the returned solution',
         text='After each real ro solve the returned x.get()/ldr.get()/ldr.get(z) values are substituted into every '
              'robust requirement of a neutral spec; LP / ECOS / closed-form / SLSQP adversaries on the harness\'s own '
-             'set description search for a violating realisation; witnesses are re-verified (membership and violation) in NumPy.',
+             'set description search for a violating realisation; witnesses are re-verified (membership and violation) in NumPy. '
+             '8 % of the cases are matrix-shaped decision rules in eight array spellings, checked vertex by vertex.',
         note='Solvers trusted to return points feasible for the compiled program; adversary affects detection power only.',
         ref='4/C01', engine='rv-reference'),
     'C02': dict(
@@ -46,7 +47,8 @@ CHECKS.update({
     'C07': dict(
         technique='runtime reference-model monitor: pinned-argument closed forms, improving-feasible-point adversary, brute-force enumeration',
         text='Pinned-argument models must return each atom\'s closed-form value (parameter sweeps); an adversary searches '
-             'for a feasible strictly better point of the user\'s model; small integer models are enumerated.',
+             'for a feasible strictly better point of the user\'s model; small integer models are enumerated; element-wise '
+             'atoms on operands of every broadcastable shape must return NumPy\'s values entry by entry.',
         note='An adversary that finds nothing is not a proof of optimality; closed forms are the reference.',
         ref='4/C07', engine='rv-reference'),
 })
@@ -93,7 +95,8 @@ CHECKS.update({
         text='After each real dro solve an adversary LP (atoms on support vertices/boundary points, probabilities in the '
              'probability set, conditional means in the expectation sets) searches for a distribution that beats the '
              'reported optimum or violates an E-constraint; non-E constraints are attacked per scenario. Witness '
-             'distributions are re-verified in NumPy.',
+             'distributions are re-verified in NumPy. 10 % of the cases put event-wise adaptive decisions into convex '
+             'constraints without E (closed-form per-scenario values).',
         note='Adversary affects detection power only; solvers trusted on the compiled program.',
         ref='4/C03', engine='rv-reference'),
     'C04': dict(
@@ -134,8 +137,9 @@ CHECKS.update({
     'C09': dict(
         technique='runtime differential monitor over API histories (hostile history vs fresh build) + comparison of the captured uncertainty-set programs',
         text='The same declared ro/dro model is built by a hostile history (distractor sets, mid-way do_math/dual/solve with '
-             'varying interfaces, late constraints/variables/rules, reused expression objects, redefined supports, second '
-             'ambiguity object) and by a fresh build; optimum and captured support programs must agree; an exception in one '
+             'varying interfaces, late constraints/variables/rules, a random variable declared between two uses of a rule, '
+             'reused expression objects, redefined supports and probability sets, one event declared in two exptset calls, '
+             'second ambiguity object) and by a fresh build; optimum and captured support programs must agree; an exception in one '
              'only is a disagreement.',
         note='One open known finding (dro dvar declared after constraints raises); same interface for both builds.',
         ref='4/C09', engine='rv-differential'),
